@@ -2,6 +2,7 @@ import Restli.Proofs.Escape
 import Restli.Proofs.RoundTrip3
 import Restli.Proofs.RoundTripJson
 import Restli.Proofs.JsonDoc
+import Restli.Proofs.JsonPretty
 /-! # C01 — codec round trip (property theorems)
 
 Part 1: the three ROR2 string flavours, for **every byte string**, against the regenerated
@@ -152,6 +153,15 @@ theorem c01_json_roundtrip_bytes (env : Env) (F : FloatLaws) (C : ConvLaws) (N :
     unmarshalJson { env := env, tracker := { excl := .empty, ignore := ign } } ty (renderJson (.obj kvs)) =
       some (.ok (norm env f ty v) []) :=
   json_roundtrip_obj env F C N (schemaOK_of_check env hS) ign f ty v kvs hv henc htext
+
+/-- **JSON (pretty writer), byte level**: the indentation and line breaks sit exactly where the
+grammar allows insignificant whitespace, so the same holds for `NewPrettyJsonWriter` output -/
+theorem c01_json_pretty_roundtrip_bytes (env : Env) (F : FloatLaws) (C : ConvLaws) (N : NumLaws)
+    (hS : schemaOKb env = true) (ign f : Nat) (ty : Ty) (v : Value) (kvs : List (Bytes × Doc)) (hv : ValOK v)
+    (henc : encode (wcfg env) f [] ty v = .ok (.obj kvs)) (htext : DocTextOK (.obj kvs)) :
+    unmarshalJson { env := env, tracker := { excl := .empty, ignore := ign } } ty (renderPretty 0 (.obj kvs)) =
+      some (.ok (norm env f ty v) []) :=
+  json_pretty_roundtrip_obj env F C N (schemaOK_of_check env hS) ign f ty v kvs hv henc htext
 
 /-- bytes and fixed values survive the JSON string representation: every byte 0x00–0xFF -/
 theorem c01_json_bytes_roundtrip (b : Bytes) : jsonPrim .bytes (.str (latin1 b)) = .ok (.bytes b) [] :=
